@@ -149,6 +149,14 @@ class Root(object):
         return 'héllo € ' * 40
 
     @cherrypy.expose
+    def acc(self, *args, **kw):
+        return b'acc'
+
+    @cherrypy.expose
+    def gz(self, *args, **kw):
+        return b'gz ' * 100
+
+    @cherrypy.expose
     def etag(self, *args, **kw):
         return b'etag body'
 
@@ -226,6 +234,8 @@ def setup():
         '/neg': {'tools.accept.on': True, 'tools.accept.media': ['text/html', 'application/json'],
                  'tools.encode.on': True, 'tools.gzip.on': True,
                  'tools.gzip.mime_types': ['text/*', 'application/*+json']},
+        '/acc': {'tools.accept.on': True, 'tools.accept.media': ['text/html', 'application/json']},
+        '/gz': {'tools.gzip.on': True, 'tools.gzip.mime_types': ['text/*']},
         '/etag': {'tools.etags.on': True, 'tools.etags.autotags': True},
         '/decode': {'tools.decode.on': True},
         '/proxy': {'tools.proxy.on': True},
